@@ -4,7 +4,6 @@ package sshcert
 
 import (
 	"crypto"
-	"crypto/dsa"
 	"crypto/ecdsa"
 	"crypto/ed25519"
 	"crypto/rand"
@@ -237,4 +236,3 @@ func (v *caVariant) signBody(rnd io.Reader, data []byte) ([]byte, error) {
 	return (&cr.W{}).S(sig.Format).Str(sig.Blob).Raw(sig.Rest).B, nil
 }
 
-var _ = dsa.L1024N160
